@@ -181,3 +181,82 @@ Section Lik.
     - unfold constraint_ll, sum. apply big_perm; auto. apply NoDup_Permutation; try apply sort_uniq_nodup.
       intros n. rewrite !constrained_in. split; intros [m [Hm H]]; exists m; split; auto; now apply all_mods_perm_in. Qed.
 End Lik.
+
+(* ---------- pruning and renaming at the likelihood level ---------- *)
+Require Import PV.WorkspacePrune.
+
+Section LikPrune.
+  Variable V : Type.
+  Variables (zero one : V) (add mul : V -> V -> V).
+  Variable ofQ : Qc -> V.
+  Variables (factor delta : modifier -> nat -> V).
+  Variable logdens : Qc -> V -> V.
+  Let chan_ll := chan_ll V zero one add mul ofQ factor delta logdens.
+  Let main_ll := main_ll V zero one add mul ofQ factor delta logdens.
+
+  Lemma find_filter {A} (p q : A -> bool) l : (forall x, p x = true -> q x = true) -> find p (filter q l) = find p l.
+  Proof. intros H. induction l as [|a t IH]; simpl; auto. destruct (q a) eqn:Eq; simpl.
+    - destruct (p a); auto.
+    - destruct (p a) eqn:Ep; auto. rewrite (H a Ep) in Eq. discriminate. Qed.
+
+  Lemma obs_of_prune w mods types samples chans meas n : ~ In n chans ->
+    obs_of (prune_ref w mods types samples chans meas) n = obs_of w n.
+  Proof. intros Hn. unfold obs_of. simpl. rewrite find_filter; auto. intros o Ho. apply String.eqb_eq in Ho. rewrite Ho.
+    apply mem_str_false in Hn. now rewrite Hn. Qed.
+
+  (* after pruning, the main likelihood is that of the remaining channels / samples / modifiers, each channel still paired
+     with its own observation *)
+  Theorem prune_likelihood_of_remainder w mods types samples chans meas :
+    main_ll (prune_ref w mods types samples chans meas) =
+    sum V zero add (fun c => chan_ll w (prune_channel_ref mods types samples c))
+        (filter (fun c => negb (mem_str (c_name c) chans)) (w_channels w)).
+  Proof. unfold main_ll, WorkspaceLik.main_ll, sum. simpl w_channels. rewrite big_map. apply big_ext. intros c Hc.
+    apply filter_In in Hc. destruct Hc as [_ Hc]. apply negb_true_iff, mem_str_false in Hc.
+    unfold chan_ll, WorkspaceLik.chan_ll. change (c_name (prune_channel_ref mods types samples c)) with (c_name c).
+    now rewrite (obs_of_prune w mods types samples chans meas (c_name c) Hc). Qed.
+
+  (* in particular pruning whole channels leaves every other channel's term untouched *)
+  Corollary prune_channels_likelihood w chans meas :
+    main_ll (prune_ref w [] [] [] chans meas) = sum V zero add (chan_ll w) (filter (fun c => negb (mem_str (c_name c) chans)) (w_channels w)).
+  Proof. rewrite prune_likelihood_of_remainder. apply big_ext. intros c _. f_equal.
+    apply (prune_channel_untouched [] [] [] []). split; auto. intros s _. split; auto. Qed.
+End LikPrune.
+
+Section LikRename.
+  Variable V : Type.
+  Variables (zero one : V) (add mul : V -> V -> V).
+  Variable ofQ : Qc -> V.
+  Variables (factor delta factor' delta' : modifier -> nat -> V).   (* the point before / after relabelling the parameters *)
+  Variable logdens : Qc -> V -> V.
+  Variables (rm rs rc rme : list (string * string)).
+  Hypothesis factor_renamed : forall m b, factor' (pr_modifier rm m) b = factor m b.
+  Hypothesis delta_renamed : forall m b, delta' (pr_modifier rm m) b = delta m b.
+
+  Definition inj_on (names : list string) : Prop := forall a b, In a names -> In b names -> rget rc a = rget rc b -> a = b.
+
+  Lemma find_map_inj (l : list observation) n : inj_on (n :: map o_name l) ->
+    find (fun o => String.eqb (o_name o) (rget rc n)) (map (pr_observation rc) l) =
+    option_map (pr_observation rc) (find (fun o => String.eqb (o_name o) n) l).
+  Proof. intros Hinj. induction l as [|o t IH]; simpl; auto.
+    assert (Ht : inj_on (n :: map o_name t)).
+    { intros a b Ha Hb. apply Hinj; simpl in *; tauto. }
+    destruct (String.eqb_spec (o_name o) n) as [e|ne].
+    - rewrite e, String.eqb_refl. reflexivity.
+    - destruct (String.eqb_spec (rget rc (o_name o)) (rget rc n)) as [e2|ne2]; [|now apply IH].
+      exfalso. apply ne. apply Hinj; simpl; auto. Qed.
+
+  Theorem rename_preserves_main_likelihood w :
+    (forall c, In c (w_channels w) -> inj_on (c_name c :: map o_name (w_observations w))) ->
+    main_ll V zero one add mul ofQ factor' delta' logdens (rn_spec w rm rs rc rme) =
+    main_ll V zero one add mul ofQ factor delta logdens w.
+  Proof. intros Hinj. unfold main_ll, sum. rewrite rn_channels, big_map. apply big_ext. intros c Hc.
+    unfold chan_ll.
+    assert (Eo : obs_of (rn_spec w rm rs rc rme) (c_name (pr_channel [] [] [] rm rs rc c)) = obs_of w (c_name c)).
+    { unfold obs_of, rn_spec, pr_spec. simpl. rewrite filter_true by (intros; apply keep_nil).
+      rewrite (find_map_inj (w_observations w) (c_name c) (Hinj c Hc)).
+      destruct (find _ (w_observations w)); reflexivity. }
+    rewrite Eo. apply big_ext. intros b _. f_equal.
+    unfold rate, sum. simpl. rewrite filter_true by (intros; apply keep_nil). rewrite big_map. apply big_ext. intros s _.
+    unfold srate, sum, prod. simpl. rewrite filter_true by (intros; reflexivity). rewrite !big_map.
+    f_equal; [f_equal|]; apply big_ext; intros m _; auto. Qed.
+End LikRename.
